@@ -72,7 +72,7 @@ def classify(proj_dir, rc, err):
     if m and rc == 4:
         shape.update({"class": "non-unique-key-panic", "nested_lists_differ_below_first_element": nested_key_shape(m.group(1), m.group(2))})
         return shape, head
-    if re.search(r"(syntax error: unexpected literal|expected 'IDENT', found) ?\.?\d", msg) or re.search(r"found \d", msg):
+    if re.search(r"(syntax error: unexpected literal|expected 'IDENT', found) ?\.?\d", msg):
         has = bool(re.search(r"(?<![A-Za-z0-9_])_+[0-9][A-Za-z0-9_]*\s*[(:]", schema))
         shape.update({"class": "identifier-starts-with-digit", "name_is_underscores_then_digit": has})
         return shape, head
@@ -226,7 +226,7 @@ def run(ctx):
 
 
 def run_sweep(ctx, have_model, branch, nontriv):
-    n = 10 if ctx.tier == "quick" else 150
+    n = 24 if ctx.tier == "quick" else 160
     root = os.path.join(vf.GO, "genout", "c17")
     shutil.rmtree(root, ignore_errors=True)
     os.makedirs(root)
@@ -249,6 +249,32 @@ def run_sweep(ctx, have_model, branch, nontriv):
         for p, rc, se in ex.map(gen, projects):
             results[p] = (rc, se)
     ok = [p for p in projects if results[p][0] == 0]
+
+    # "autobind / no models" point of the configuration space: the models generated for a project become the
+    # user's hand-written package of a second project that has no `model:` section and autobinds to it
+    nab = 3 if ctx.tier == "quick" else 24
+    ab = []
+    for p in ok:
+        src = os.path.join(root, p, "model", "models_gen.go")
+        if len(ab) >= nab or not p.startswith("c17r") or not os.path.exists(src):
+            continue
+        q = p + "ab"
+        d = os.path.join(root, q)
+        os.makedirs(os.path.join(d, "mdl"))
+        for f in os.listdir(os.path.join(root, p)):
+            if f.endswith(".graphql"):
+                shutil.copy(os.path.join(root, p, f), d)
+        shutil.copy(src, os.path.join(d, "mdl"))
+        y = read(os.path.join(root, p, "gqlgen.yml"))
+        y = y.replace("model:\n  filename: model/models_gen.go\n  package: model\n", "").replace("package: %s\n" % p, "package: %s\n" % q)
+        y += "autobind:\n  - verifharness/genout/c17/%s/mdl\n" % q
+        open(os.path.join(d, "gqlgen.yml"), "w").write(y)
+        ab.append(q)
+    with ThreadPoolExecutor(max_workers=8) as ex:
+        for p, rc, se in ex.map(gen, ab):
+            results[p] = (rc, se)
+    projects += ab
+    ok += [p for p in ab if results[p][0] == 0]
 
     # independent second opinion: the Go compiler on everything that was generated without error
     build_fail = {}
@@ -278,7 +304,7 @@ def run_sweep(ctx, have_model, branch, nontriv):
 
     decl_out = {}
     with ThreadPoolExecutor(max_workers=8) as ex:
-        for p, (rc, so, se) in ex.map(decls, [p for p in ok if p not in build_fail]):
+        for p, (rc, so, se) in ex.map(decls, [p for p in ok if p not in build_fail and not p.endswith("ab")]):
             if rc != 0:
                 raise RuntimeError("harness decls failed for %s: %s" % (p, (so + se)[-1500:]))
             d = dict(l.split("\t", 1) for l in so.split("\n") if "\t" in l)
@@ -320,7 +346,7 @@ def run_sweep(ctx, have_model, branch, nontriv):
     samples = []
     for p in projects:
         rc, se = results[p]
-        branch["sweep:" + ("directed" if p.startswith("c17d") else "random")] += 1
+        branch["sweep:" + ("directed" if p.startswith("c17d") else "autobind-no-models" if p.endswith("ab") else "random")] += 1
         nontriv.add("p" + p)
         if rc == 0 and p not in build_fail:
             classes["ok"] += 1
